@@ -63,6 +63,9 @@ ASSUMPTIONS = [
     "'untouched'); if present it must be untouched",
     "with reload(global_ctx=name) the other changes are ignored: a re-executed importer binds to a module that "
     "is still loaded even if that module's file changed on disk",
+    "with reload(global_ctx=name), a context that depends on the named one (package mate or importer) and whose own "
+    "file is gone - an ignored deletion - may be kept or discarded ('other changes are ignored' v. 'all other files "
+    "in the module or app' are reloaded); the lower bound of the closure stops there",
     "an unreadable script (open raises OSError) may or may not lose its previously loaded context, it is never "
     "executed; all other files are judged strictly",
     "running tasks are required to survive only in contexts that were left untouched (the property's wording)",
@@ -80,7 +83,7 @@ REACH_PROBES = [
     "strict_subset_reexecuted", "orphan_module", "optional_change", "package_shadows_module",
     "unreadable_skipped", "deleted_module_with_importers", "deleted_package_sibling", "import_of_absent_module",
     "sibling_imports_sibling", "touch_only", "name_reload_ignored_other_change", "task_in_flight_at_reload",
-    "stall_during_reload",
+    "stall_during_reload", "content_only_change",
 ]
 SHRINK_LISTS = [["ops"], ["spec", "files"], ["spec", "files", "*", "imports"]]
 
@@ -223,7 +226,8 @@ class Disk:
             f = self.files.get(op["path"])
             if f is None:
                 return False
-            f["mtime"] = self._mtime()
+            if not (kind == "modify" and op.get("keep_mtime")):
+                f["mtime"] = self._mtime()
             if kind == "modify":
                 f["gen"] += 1
                 if op.get("imports") is not None:
@@ -668,6 +672,8 @@ def _gen_edit(rng: random.Random, disk: Disk, next_uid: int, steer: bool) -> dic
     if roll < 0.26 and paths:
         path = rng.choice(visible or paths)
         op = {"kind": "modify", "path": path}
+        if rng.random() < 0.12:
+            op["keep_mtime"] = True  # content replaced by a tool that preserves the modification time
         if rng.random() < 0.3:
             mods_here, sibs_here = _tree_names(paths)
             info = classify(path)
@@ -791,6 +797,9 @@ def simplify(scn: dict):
             yield cand
     apps = scn["cfg"].get("apps") or {}
     for app in sorted(apps):
+        cand = copy.deepcopy(scn)
+        del cand["cfg"]["apps"][app]
+        yield cand
         if apps[app]:
             cand = copy.deepcopy(scn)
             cand["cfg"]["apps"][app] = {}
@@ -886,6 +895,9 @@ class Judge:
                 w.probe("app_config_changed")
             if reason["op"] == "touch":
                 w.probe("touch_only")
+            if reason["op"] == "modify" and ctx in loaded and ctx in exp["found"] and \
+                    self.disk.files[exp["found"][ctx]["path"]]["mtime"] == loaded[ctx]["mtime"]:
+                w.probe("content_only_change")
             if reason["op"] == "shadow":
                 w.probe("package_shadows_module")
             if reason["op"] == "unreadable":
@@ -1207,6 +1219,10 @@ def run(scn: dict) -> dict:
     async def driver(w: World):
         await w.started()
         judge.last_reload_vt = 0.0
+        if not w.hass.services.has_service("pyscript", "reload"):
+            judge.viol("C10.setup_failed", {}, "the integration did not finish its set-up with the generated tree "
+                       f"(no pyscript.reload service); errors: {[r['msg'][:120] for r in w.logs if r['level'] == 'ERROR'][:3]}")
+            return
         judge.after_load(None, "startup", w.loop.vt)
         await probe("startup")
         for op in scn["ops"]:
@@ -1230,7 +1246,11 @@ def run(scn: dict) -> dict:
                 t0 = w.loop.vt
                 judge.last_reload_vt = t0
                 n_before = judge.n_exec
-                await w.reload(mode)
+                try:
+                    await w.reload(mode)
+                except Exception as exc:  # pylint: disable=broad-except
+                    judge.viol("C10.reload_raised", {"mode": label, "exc": type(exc).__name__},
+                               f"pyscript.reload({mode!r}) raised {exc!r}")
                 await w.settle(0.0)
                 judge.after_load(mode, label, t0)
                 judge.reload_times.append({"t0": t0, "n_exec": judge.n_exec - n_before})
